@@ -322,9 +322,54 @@ def r15_6(ctx):
     ok = bool(brk)
     if ok:
         gs = Flow(f.node, body=[wl[0]]).run().guards_at(brk[0]) or set()
-        ok = any(k in ("set_pass", "not set_pass") for k, _ in gs)
+        pass_lists = {ast.unparse(a.targets[0]) for a in ast.walk(wl[0]) if isinstance(a, ast.Assign) and isinstance(a.value, ast.ListComp)
+                      and ".visibility" in ast.unparse(a.value) and f"{pending}.items()" in ast.unparse(a.value)}
+        ok = any((k in pass_lists and not p) for k, p in gs)
     (ctx.ok(construct, f.loc(wl[0])) if ok else ctx.bad(construct, "the `no visible target left` exit changed", f.loc(wl[0])))
 
 
+def r15_7(ctx):
+    """R15.7 a symbol that is only referenced (never defined) has no menu node: every `X.nodes[0]` in kconfserver on a symbol
+    looked up by a request-supplied name is reached only for names that passed a `.nodes` emptiness filter (directly or
+    through the list of missing names it is filtered against)."""
+    repo = ctx.repo
+    n_sites = 0
+    for f in repo.funcs_in(KS):
+        for n in ast.walk(f.node):
+            if not (isinstance(n, ast.Subscript) and isinstance(n.value, ast.Attribute) and n.value.attr == "nodes" and isinstance(n.slice, ast.Constant)
+                    and repo.enclosing_func(n) is f):
+                continue
+            recv = n.value.value
+            if not isinstance(recv, ast.Name):
+                continue
+            # receiver bound by a loop over a local list built from config.syms[...]
+            lp = repo.parent(n)
+            while lp is not None and not (isinstance(lp, ast.For) and ast.unparse(lp.target) == recv.id):
+                lp = repo.parent(lp)
+            if lp is None or not isinstance(lp.iter, ast.Name):
+                continue
+            src = [a for a in ast.walk(f.node) if isinstance(a, ast.Assign) and ast.unparse(a.targets[0]) == lp.iter.id]
+            if not src or "config.syms[" not in ast.unparse(src[0].value):
+                continue
+            n_sites += 1
+            ctx.analysed(f.qual)
+            construct = f"{f.short}/{recv.id}.nodes[0] only for symbols that have a menu node"
+            text = ast.unparse(src[0].value)
+            ok = ".nodes" in text
+            if not ok:
+                # filtered against another local list whose construction tests .nodes
+                for other in [a for a in ast.walk(f.node) if isinstance(a, ast.Assign) and isinstance(a.targets[0], ast.Name)
+                              and f"not in {ast.unparse(a.targets[0])}" in text]:
+                    if ".nodes" in ast.unparse(other.value):
+                        ok = True
+            gs = Flow(f.node).run().guards_at(n) or set()
+            ok = ok or any(k.endswith(".nodes") and p for k, p in gs)
+            (ctx.ok(construct, f.loc(n)) if ok else
+             ctx.bad(construct, f"a name that is in config.syms only because some expression references it (no definition, empty nodes) reaches "
+                     f"{recv.id}.nodes[0]: IndexError kills the server", f.loc(n)))
+    if n_sites < 1:
+        raise AnalysisError("no `.nodes[0]` site on request-named symbols found in kconfserver")
+
+
 def rules():
-    return [("R15.1", r15_1, 4), ("R15.2", r15_2, 2), ("R15.3", r15_3, 3), ("R15.4", r15_4, 2), ("R15.5", r15_5, 3), ("R15.6", r15_6, 2)]
+    return [("R15.7", r15_7, 1), ("R15.1", r15_1, 4), ("R15.2", r15_2, 2), ("R15.3", r15_3, 3), ("R15.4", r15_4, 2), ("R15.5", r15_5, 3), ("R15.6", r15_6, 2)]
